@@ -38,10 +38,7 @@ package utils
 //@ func ParsePkScript
 //@   props C16 C19
 //@   requires chainParams != nil
-//@   dead return#2
-//@   dead return#3
-//@   dead return#4
-//@   dead return#6
+//@   dead returns 4
 //@   ensures err != nil ==> result == nil
 //@   ensures err == nil ==> result != nil && fresh(PS(result)) && PS(result).stdAddress != nil
 //@   ensures[C16] clsOf(pkScript) != mathint(txscript.WitnessV0ScriptHashTy) && clsOf(pkScript) != mathint(txscript.StakingScriptHashTy) && clsOf(pkScript) != mathint(txscript.BindingScriptHashTy) ==> err != nil
